@@ -132,8 +132,8 @@ def run(ctx):
                   "%s no longer is exactly the byte-level operation (results: %s): it can answer differently from the same operation on the bytes" % (fn_, [e[:80] for e in es]))
     # find's window: starts_with on bytes[x..] compared with needle bytes
     fd = fx.body("<std::ffi::os_str::OsStr as clap_lex::ext::OsStrExt>::find")
-    cl0 = [cb for c in fd.calls_to(r"Iterator>?::find$") for cb in closure_bodies(fx, c)]
-    okw = any(cb.calls_to(r"\[T\]::starts_with$") and cb.calls_to(r"str::as_bytes$") for cb in cl0)
+    fms = first_match_scan(fx, fd)
+    okw = bool(fms) and any(x.is_(r"\[T\]::starts_with$") for x in fms["test_calls"]) and any(x.is_(r"str::as_bytes$") for x in fms["test_calls"])
     res.check(okw, "R14.2", "find-window", fd.where(), "find tests bytes[x..].starts_with(needle.as_bytes())", "find no longer compares the byte window with the needle bytes")
     # Split::next: uses split_once on the remaining haystack, ends with None haystack
     sp = fx.body("<clap_lex::ext::Split as std::iter::traits::iterator::Iterator>::next")
